@@ -23,12 +23,18 @@ from ..common import Check, MachineryError, SPEC
 from .. import tlc
 
 PID = "G04"
+# FALSE: the specification models SimulatorTask._run as the code has it (finding G04:sim-poll-reads-state-before-returncode, named
+# deviation SimTornPoll).  Set to "TRUE" once /repo is repaired (out/proposed_fixes/G04_simulator_torn_poll.diff): the strong property
+# SimDeadHasCode then holds and is checked as an invariant.
+SIM_STATE_LAST = os.environ.get("G04_SIM_STATE_LAST", "FALSE")
+FINDING_SIM = "sim-poll-reads-state-before-returncode"
+LIGHT = ["-XX:TieredStopAtLevel=1"]       # small models: the JIT costs more than it gains
 GEN = os.path.join(SPEC, "gen", "g04_%d" % os.getpid())
 MODULE = "TaskLifecycle"
 
 BASE = dict(ExitCodes="{0, 3}", ExtSignals="{9}", Disps='{"die", "ignore"}', Observers="{1}", MaxKill=2, MonKind='"none"',
             TestKind='"task"', TestVals='{"True", "False"}', ActOuts='{"ok", "exc"}', LastAction="TRUE", IntervalKind='"number"',
-            FsRetries=5, MaxAct=3, MaxPoll=2, SimCodes="{0}", SimUnmet="{FALSE}", MaxSimPoll=2, TrackRes="FALSE", Emit="FALSE")
+            FsRetries=5, MaxAct=3, MaxPoll=2, SimCodes="{0}", SimUnmet="{FALSE}", MaxSimPoll=2, SimStateLast=SIM_STATE_LAST, Fine="FALSE", TrackRes="FALSE", Emit="FALSE")
 
 
 def cfg(name, consts, body):
@@ -42,9 +48,107 @@ def cfg(name, consts, body):
 
 
 def must_hold(chk, r, what):
+    m = re.search(r"Error: Temporal property (\S+) was violated", r["out"])
+    if m:
+        r["violated"] = m.group(1)
     if not r["ok"]:
         raise MachineryError("TaskLifecycle.tla: %s: %s fails on the model\n%s" % (what, r["violated"], r["out"][-2500:]))
     chk.add_tlc(r)
+
+
+# --------------------------------------------------------------------------------------------------------------------------
+# 1. the models
+
+TASK_INV = ["TaskTypeOK", "ViewConsistent", "RcIsKernelStatus", "LockDiscipline", "FlagsOrdered", "WaitReturnsDead", "OwnSignalIsCancelled",
+            "ActionAtMostOnce", "ActionOnlyWhenDead", "OneTickAtATime", "ChainStateConsistent"]
+TASK_PROP = ["RcStable", "StatusStable", "NoSignalAfterKnownDead", "ChainEndIsFinal", "NoTickAfterCancelSeen"]
+PER_INV = ["PerTypeOK", "LastAtMostOnce", "LastOnlyAfterCancel", "NoLastWhenDisabled", "AtMostOneNormalAfterCancel", "EndsOnlyWhenCancelledOrBroken"]
+PER_PROP = ["NothingAfterLast", "ErrorsAreTracked"]
+SIM_INV = ["SimTypeOK", "SimEventOnlyWhenDead", "SimObservedFollowsReal", "SimObservedCodeWasReal", "SimWaitReturnsDead", "SimKilledOrExpected"]
+SIM_PROP = ["SimDeadIsFinal"]
+
+# named deviations: (name, specification, kind of property, property, constants)
+DEVIATIONS = [
+    ("KillIsTerminate", "TaskSpec", "INVARIANT", "KillGivesKilled", dict(MaxKill=1)),
+    ("KillIsSoft", "TaskFair", "PROPERTY", "KillLeadsToDeath", dict(MaxKill=1, Observers="{}")),
+    ("ZombieLooksAlive", "TaskSpec", "INVARIANT", "QuerySeesDeath", dict(MaxKill=1, TrackRes="TRUE")),
+    ("SignalAfterReap", "TaskSpec", "INVARIANT", "NoSignalToFreedPid", dict(MaxKill=1)),
+    ("EpochFinishedLate", "TaskSpec", "INVARIANT", "WaitSeesEpoch", dict(MaxKill=0)),
+    ("ActionAfterCancel/death-action", "TaskSpec", "INVARIANT", "NoDeathActionAfterCancel", dict(MaxKill=0, Observers="{}", MonKind='"death"')),
+    ("ActionAfterCancel/periodic", "PerSpec", "INVARIANT", "NoNormalActionAfterCancel", dict(ActOuts='{"ok"}')),
+    ("TruthyIsDead", "TaskSpec", "PROPERTY", "OnlyFalseIsDead", dict(ExitCodes="{}", ExtSignals="{}", Disps="{}", Observers="{}", MaxKill=0,
+                                                                  MonKind='"death"', TestKind='"env"', TestVals='{"True", "False", "One", "Zero", "None", "raise"}')),
+    ("RetryIgnoresInterval", "PerSpec", "PROPERTY", "IntervalBetweenActions", dict(ActOuts='{"ok", "exc"}')),
+    ("FsBailOutSkipsLast", "PerFair", "PROPERTY", "CancelLeadsToLastAction", dict(ActOuts='{"ok", "fs"}', MaxAct=8)),
+    ("SimTornPoll", "SimSpec", "INVARIANT", "SimDeadHasCode", dict(MaxKill=0)),
+    ("SimCodeBeforeState", "SimSpec", "INVARIANT", "SimCodeOnlyWhenDead", dict(MaxKill=0)),
+    ("SimKillRewritesExit", "SimSpec", "PROPERTY", "SimFinishedStaysFinished", dict(MaxKill=1)),
+    ("SimKillWaitsOut", "SimSpec", "PROPERTY", "SimKillAbortsExecution", dict(MaxKill=1)),
+]
+
+
+def body(spec, invs=(), props=()):
+    return "SPECIFICATION %s\n" % spec + "".join("INVARIANT %s\n" % i for i in invs) + "".join("PROPERTY %s\n" % p for p in props)
+
+
+def model_check(chk, tier):
+    from concurrent.futures import ThreadPoolExecutor
+    th = tier == "thorough"
+    jobs = []     # (name, constants, cfg body, property expected to fail | None)
+    mon = dict(MonKind='"death"', MaxKill=1)
+    jobs.append(("task-safety", dict(mon, Observers="{1, 2}" if th else "{1}", TrackRes="TRUE", ExitCodes="{0, 3}" if th else "{3}"),
+                 body("TaskSpec", TASK_INV, TASK_PROP), None))
+    jobs.append(("task-safety-fine", dict(mon, Observers="{1, 2}", Fine="TRUE", MaxKill=2 if th else 1), body("TaskSpec", TASK_INV, TASK_PROP), None))
+    jobs.append(("task-event-monitor", dict(mon, MonKind='"event"', Fine="TRUE"), body("TaskSpec", TASK_INV, TASK_PROP), None))
+    jobs.append(("task-liveness", dict(mon, Fine="TRUE", ExitCodes="{3}"), body("TaskFair", (), ["ExitLeadsToEvent", "WaitersReturn", "HardKillLeadsToDeath"]), None))
+    jobs.append(("monitor-liveness", dict(mon, Observers="{}", ExitCodes="{3}", Disps='{"die"}' if not th else '{"die", "ignore"}'),
+                 body("MonFair", (), ["DeathLeadsToAction", "CancelStopsChain"]), None))
+    envmon = dict(ENV, TestKind='"env"', TestVals=ALLVALS)
+    for mk in ("death", "event"):
+        jobs.append(("monitor-any-test-%s" % mk, dict(envmon, MonKind='"%s"' % mk), body("TaskSpec", TASK_INV, TASK_PROP), None))
+    for la in ("TRUE", "FALSE"):
+        for ik in ("number", "callable"):
+            c = dict(ENV, ActOuts='{"ok", "exc", "fs"}', MaxAct=8 if th else 7, MaxPoll=3 if th else 2, LastAction=la, IntervalKind='"%s"' % ik)
+            jobs.append(("periodic-%s-%s" % (la, ik), c, body("PerSpec", PER_INV, PER_PROP), None))
+            jobs.append(("periodic-live-%s-%s" % (la, ik), dict(c, MaxAct=4), body("PerFair", (), ["CancelLeadsToEnd"]), None))
+    jobs.append(("periodic-last-action-without-fs-errors", dict(ENV, ActOuts='{"ok", "exc"}', MaxAct=4), body("PerFair", (), ["CancelLeadsToLastAction"]), None))
+    sim = dict(ENV, MaxKill=2 if th else 1, SimCodes="{0, 3}", SimUnmet="{FALSE, TRUE}", MaxSimPoll=3 if th else 2)
+    jobs.append(("simulator-safety", dict(sim, Fine="TRUE"), body("SimSpec", SIM_INV, SIM_PROP), None))
+    jobs.append(("simulator-liveness", dict(sim, SimCodes="{3}", MaxKill=1, MaxSimPoll=2), body("SimFair", (), ["SimEndLeadsToEvent", "SimKillLeadsToEnd"]), None))
+    for name, spec, kind, prop, consts in DEVIATIONS:
+        if name == "SimTornPoll" and SIM_STATE_LAST == "TRUE":
+            jobs.append(("repaired:" + name, dict(sim, Fine="TRUE"), "SPECIFICATION %s\n%s %s\n" % (spec, kind, prop), None))
+            continue
+        jobs.append(("deviation:" + name, consts, "SPECIFICATION %s\n%s %s\n" % (spec, kind, prop), prop))
+
+    def one(job):
+        name, consts, text, prop = job
+        c = cfg("mc_%s_%s" % (re.sub(r"\W", "_", name), tier), consts, text)
+        try:
+            small = prop is not None or not name.startswith(("task-safety", "task-liveness", "simulator-safety"))
+            return tlc.run_tlc(MODULE, c, timeout=1500, workers=4 if prop is None else 1, expect_violation=prop is not None, jvm=LIGHT if small else None)
+        except MachineryError as e:
+            return e
+    with ThreadPoolExecutor(4) as ex:
+        results = list(ex.map(one, jobs))
+    dev, sizes = {}, {}
+    for (name, consts, text, prop), r in zip(jobs, results):
+        if isinstance(r, Exception):
+            raise r
+        if prop is None:
+            must_hold(chk, r, name)
+            sizes[name] = r.get("distinct", 0)
+        else:
+            viol = r["violated"]
+            m = re.search(r"Error: Temporal property (\S+) was violated", r["out"])
+            if viol is None and m:
+                viol = m.group(1)
+            if viol != prop:
+                raise MachineryError("TaskLifecycle.tla: expected a counterexample to %s (named deviation %s), got %s\n%s" % (prop, name, viol, r["out"][-1500:]))
+            chk.add_tlc(r)
+            dev[name[10:]] = "counterexample to %s found by TLC (%d states)" % (prop, r.get("distinct", 0))
+    chk.cov["named_deviations_witnessed"] = dev
+    chk.cov["model_sizes"] = sizes
 
 
 # --------------------------------------------------------------------------------------------------------------------------
@@ -183,15 +287,38 @@ def pool_map(fn, chunks):
         return list(p.imap(fn, chunks))
 
 
-def transition_cover(chk, name, spec, consts, kind, params, min_edges):
-    """TLC prints the transitions of one bounded model; cover them with paths; replay the paths on the real objects."""
-    c = cfg("edges_%s" % name, dict(consts, Emit="TRUE"), "SPECIFICATION %s\n" % spec)
-    r = tlc.run_tlc(MODULE, c, workers=1, timeout=1500)
-    must_hold(chk, r, "transition emission %s" % name)
-    edges = r["cases"]
-    r["out"] = ""
-    if len(edges) < min_edges:
-        raise MachineryError("TLC printed only %d transitions for %s" % (len(edges), name))
+def emit_transitions(chk, plan):
+    """One TLC run per bounded model prints its transitions (side by side)."""
+    from concurrent.futures import ThreadPoolExecutor
+
+    def one(item):
+        name, spec, consts, kind, params, least = item
+        c = cfg("edges_%s" % name, dict(consts, Emit="TRUE"), "SPECIFICATION %s\n" % spec)
+        try:
+            return tlc.run_tlc(MODULE, c, workers=1, timeout=1500, jvm=LIGHT if least < 10000 else None)
+        except MachineryError as e:
+            return e
+    with ThreadPoolExecutor(6) as ex:
+        results = list(ex.map(one, plan))
+    out = []
+    for item, r in zip(plan, results):
+        if isinstance(r, Exception):
+            raise r
+        must_hold(chk, r, "transition emission %s" % item[0])
+        edges = r["cases"]
+        r["out"] = ""
+        r["cases"] = []
+        if len(edges) < item[5]:
+            raise MachineryError("TLC printed only %d transitions for %s" % (len(edges), item[0]))
+        out.append(edges)
+    return out
+
+
+def transition_cover(chk, name, edges, kind, params):
+    """Cover the transitions of one bounded model with paths; replay the paths on the real objects."""
+    acts = chk.cov.setdefault("action_coverage", {})
+    for e in edges:
+        acts[e[1][3]] = acts.get(e[1][3], 0) + 1
     init, states, out = graph_of(edges)
     paths = cover_paths(init, out)
     full = [[(lab, states[t]) for lab, t in p] for p in paths]
@@ -201,7 +328,7 @@ def transition_cover(chk, name, spec, consts, kind, params, min_edges):
     steps = 0
     for p, rr in zip(full, res):
         steps += len(p)
-        chk.evaluated((name, [x[0] for x in p]))
+        chk.evaluated((name, [x[0][:2] for x in p]))
         if rr is None:
             chk.trace_validated()
             continue
@@ -210,10 +337,17 @@ def transition_cover(chk, name, spec, consts, kind, params, min_edges):
         chk.violation(rr[0], "%s: %s" % (name, rr[1]), {"kind": "replay", "driver": kind, "params": params, "init": states[init],
                                                         "path": [[lab, st] for lab, st in p]})
     chk.cov.setdefault("transition_cover", {})[name] = dict(states=len(states), transitions=len(edges), paths=len(full), replayed_steps=steps)
+    if kind == "sim":
+        # the finding: the REAL SimulatorTask answered "exitReason raises TypeError" where the specification of the current code says so
+        n = sum(1 for p, rr in zip(full, res) if rr is None for lab, _st in p if lab[0] == "View" and str(lab[2][2]).startswith("raised"))
+        if n:
+            FOUND[FINDING_SIM] = ("SimulatorTask: poll() copies _real_state and _real_return_code without the lock _run holds; a poll between `_real_state = "
+                                  "finished` and the return code leaves the task dead with returncode None for ever: exitReason raises TypeError, status "
+                                  "'failed', wait() has returned (%d replayed queries of the real task answered so; repro "
+                                  "out/proposed_fixes/G04_simulator_torn_poll_repro.py, repair G04_simulator_torn_poll.diff, then G04_SIM_STATE_LAST=TRUE)" % n)
     if full:
         p = max(full, key=len)
-        chk.sample({"model": name, "longest_path": [x[0] for x in p]}, limit=6)
-    return edges
+        chk.sample({"model": name, "longest_path": [x[0][:2] for x in p]}, limit=6)
 
 
 # --------------------------------------------------------------------------------------------------------------------------
@@ -233,7 +367,7 @@ def tla(v):
     raise MachineryError("cannot render %r for TLC" % (v,))
 
 
-TRACE_CONSTS = dict(MaxKill=99, MaxAct=99, MaxPoll=99, MaxSimPoll=99, TrackRes="TRUE", ActOuts='{"ok", "exc", "fs"}',
+TRACE_CONSTS = dict(Fine="TRUE", MaxKill=99, MaxAct=99, MaxPoll=99, MaxSimPoll=99, TrackRes="TRUE", ActOuts='{"ok", "exc", "fs"}',
                     TestVals='{"True", "False", "One", "Zero", "None", "raise"}')
 
 
@@ -279,7 +413,7 @@ def validate_traces(chk, tag, kind, consts, traces):
     with open(path, "w") as f:
         f.write("CONSTANTS\n" + "".join("  %s = %s\n" % kv for kv in c.items()) +
                 "SPECIFICATION TraceSpec\nCONSTRAINT Furthest\nINVARIANT TInv\nPOSTCONDITION AllAccepted\nCHECK_DEADLOCK FALSE\n")
-    r = tlc.run_tlc(MODULE + "_trace", path, specdir=d, workers=1, timeout=1500, expect_violation=True)
+    r = tlc.run_tlc(MODULE + "_trace", path, specdir=d, workers=1, timeout=1500, expect_violation=True, jvm=LIGHT)
     chk.add_tlc(r)
     out = r["out"]
     inv = None
@@ -300,8 +434,8 @@ def validate_traces(chk, tag, kind, consts, traces):
     return rejected, inv
 
 
-def code_to_spec(chk, tier, scratch):
-    n = 120 if tier == "quick" else 1200
+def code_to_spec(chk, tier, scratch, only_group=None, only_seed=None):
+    n = 80 if tier == "quick" else 1000
     groups = [("task", (2, "death", "task"), dict(Observers="{1, 2}", MonKind='"death"', TestKind='"task"')),
               ("task", (1, "event", "task"), dict(Observers="{1}", MonKind='"event"', TestKind='"task"')),
               ("task", (1, "death", "env"), dict(Observers="{1}", MonKind='"death"', TestKind='"env"')),
@@ -314,7 +448,12 @@ def code_to_spec(chk, tier, scratch):
     jobs = []
     for gi, (kind, params, consts) in enumerate(groups):
         seeds = [chk.seed * 1000003 + gi * 100000 + i for i in range(n)]
-        for i in range(0, n, 30):
+        if only_group is not None:
+            if gi != only_group:
+                continue
+            if only_seed is not None:
+                seeds = [only_seed]
+        for i in range(0, len(seeds), 30):
             jobs.append((kind, params, seeds[i:i + 30], scratch))
     res = pool_map(_runs_chunk, jobs)
     by_group = {}
@@ -323,6 +462,8 @@ def code_to_spec(chk, tier, scratch):
     stats = {}
     selftest_done = False
     for gi, (kind, params, consts) in enumerate(groups):
+        if (kind, params) not in by_group:
+            continue
         runs = []
         for sd, tr, problem in by_group[(kind, params)]:
             if problem:
@@ -366,10 +507,248 @@ def code_to_spec(chk, tier, scratch):
                 if 0 not in rej or rej[0] != idx:
                     raise MachineryError("self-test: a trace with a corrupted returncode at step %d was not rejected there (%s)" % (idx + 1, rej))
                 selftest_done = True
-    if not selftest_done:
+    if not selftest_done and only_group is None:
         raise MachineryError("self-test of the trace binding did not run (no suitable recorded run)")
     chk.cov["random_runs"] = stats
     chk.cov["trace_selftest"] = "a recorded run with one corrupted field (returncode stored by the waiter thread) is rejected at that step"
+
+
+# --------------------------------------------------------------------------------------------------------------------------
+# 4. function specifications
+
+def _table_chunk(args):
+    """-> list of (rc, impl, observed dict)"""
+    rows, scratch = args
+    from .. import world_g04 as G
+    out = []
+    for rc, variant in rows:
+        # LocalTask: the process ends with exit code rc / by signal -rc; variant 0: the waiter thread reaps it, 1: the owner's poll does,
+        # 2 (signals): with the core-dump flag in the wait status
+        d = G.TaskDriver(0, "none", "task")
+        try:
+            d.apply(["Create", "die"])
+            if variant == 0:
+                d.apply(["W", 0])
+            G.K.exit(d.task.pid, rc, core=(variant == 2))
+            if variant == 1:
+                first = d.call("status")
+            guard = 0
+            while d.waiter.status != "done" and guard < 20:
+                d.apply(["W", 0])
+                guard += 1
+            t = d.task
+            got = dict(rc=t.returncode, reason=t.exitReason, status=t.status, alive=t.isAlive(), poll=t.poll(), ended=d.waiter.status == "done")
+            if variant == 1:
+                got["first"] = first
+            out.append((rc, "local%d" % variant, got))
+        finally:
+            d.close()
+        if variant == 0:
+            s = G.SimDriver(scratch)
+            try:
+                s.apply(["Create", rc, False])
+                guard = 0
+                while not s.task._finished_event.flag and guard < 60:
+                    guard += 1
+                    s._threads()
+                    for g in (s.run_g, s.poll_g):
+                        if g.status == "done":
+                            continue
+                        if g.status == "blocked" and not g.can_run():
+                            s.thread_step(g, wake="timeout")
+                        else:
+                            s.thread_step(g)
+                v = s.view()
+                out.append((rc, "sim", dict(alive=v[0], rc=v[1], reason=v[2], status=v[3], ended=s.task._finished_event.flag)))
+            finally:
+                s.close()
+    return out
+
+
+def table(chk):
+    c = cfg("table", dict(ENV), "SPECIFICATION TabSpec\nINVARIANT TabEmit\nINVARIANT TabSane\n")
+    r = tlc.run_tlc(MODULE, c, workers=1, timeout=600, jvm=LIGHT)
+    must_hold(chk, r, "returncode table")
+    want = {x["rc"]: x for x in r["cases"]}
+    if sorted(want) != list(range(-64, 256)):
+        raise MachineryError("TLC printed %d table rows" % len(want))
+    rows = []
+    for rc in range(-64, 256):
+        rows += [(rc, 0), (rc, 1)]
+        if rc < 0:
+            rows.append((rc, 2))
+    chunks = [(rows[i:i + 60], chk.scratch) for i in range(0, len(rows), 60)]
+    res = [x for part in pool_map(_table_chunk, chunks) for x in part]
+    for rc, impl, got in res:
+        w = want[rc]
+        chk.evaluated(("table", impl, rc))
+        cls = "zero" if rc == 0 else "exit-code" if rc > 0 else "signal"
+        if impl.startswith("local"):
+            exp = dict(rc=rc, reason=w["local"], status=w["status"], alive=False, poll=rc, ended=True)
+            if "first" in got:
+                exp["first"] = ["F", rc, w["local"], w["status"]]
+        else:
+            exp = dict(alive="F", rc=rc, reason=w["sim"], status=w["status"], ended=True)
+        if got != exp:
+            f, det = diff(got, exp)
+            chk.violation("table:%s:%s:%s" % (impl.rstrip("012"), cls, "+".join(f)), "process status %d (%s): %s" % (rc, impl, det), {"kind": "table", "rc": rc})
+    chk.cov["returncode_table"] = dict(codes=320, executions=len(res))
+    return want
+
+
+REAL_CASES = [("exit 0", 0), ("exit 1", 1), ("exit 3", 3), ("exit 24", 24), ("exit 255", 255), ("kill -INT $$", -2), ("kill -KILL $$", -9),
+              ("kill -TERM $$", -15), ("ulimit -c 0; kill -XCPU $$", -24), ("ulimit -c 0; kill -SEGV $$", -11), ("kill -USR1 $$", -10)]
+
+
+def _real_chunk(_):
+    """REAL processes through the unmodified LocalTask (a process of its own: no shim is installed here)."""
+    from .. import realenv  # noqa: F401
+    import experiment.runtime.backend_interfaces.localtask as lt
+    if not isinstance(lt.threading, type(os)):
+        return [("MACHINERY", "the lock-step shims are installed in the process that runs real tasks")]
+    out = []
+    for cmd, rc in REAL_CASES:
+        t = lt.LocalTask(cmd, shell=True, stdout=open(os.devnull, "w"), stderr=open(os.devnull, "w"))
+        t.wait()
+        cell = t.performanceInfo.getElements().get("epoch-finished") if hasattr(t.performanceInfo, "getElements") else None
+        out.append((cmd, rc, dict(rc=t.returncode, reason=t.exitReason, status=t.status, alive=t.isAlive(), epoch=cell not in (None, "None"))))
+        t.kill()
+        t.terminate()
+    # kill() / terminate() of a running process, then wait()
+    for how in ("kill", "terminate"):
+        t = lt.LocalTask("exec sleep 30", shell=True)
+        before = (t.isAlive(), t.exitReason, t.status, t.poll())
+        getattr(t, how)()
+        t.wait()
+        out.append((how, -15, dict(rc=t.returncode, reason=t.exitReason, status=t.status, alive=t.isAlive(), epoch=True, before=before)))
+    return out
+
+
+def real_processes(chk, want):
+    res = pool_map(_real_chunk, [0])[0]
+    for item in res:
+        if item[0] == "MACHINERY":
+            raise MachineryError(item[1])
+        cmd, rc, got = item
+        chk.evaluated(("real", cmd))
+        w = want[rc]
+        exp = dict(rc=rc, reason=w["local"], status=w["status"], alive=False, epoch=True)
+        if "before" in got:
+            exp["before"] = (True, None, "running", None)
+        if got != exp:
+            f, det = diff(got, exp)
+            chk.violation("real-process:%s" % "+".join(f), "real process `%s` through LocalTask: %s" % (cmd, det), {"kind": "real"})
+    chk.cov["real_processes"] = len(res)
+
+
+def _tracker_chunk(cases):
+    from .. import world_g04 as G
+    lt, mon = G._setup_modules()
+    import experiment.model.errors as merr
+    out = []
+
+    def fn():
+        pass
+    for c in cases:
+        G.W.stop_all()
+        G.W.reset()
+        mon.MonitorExceptionTracker.default = None
+        tr = mon.MonitorExceptionTracker.defaultTracker()
+        for t, kd in c["trk"]:
+            G.W.now = float(t)
+            base = kd.split(":")[-1]
+            e = {"fs": lambda: merr.FilesystemInconsistencyError("directory vanished", None), "sys": lambda: SystemError("system"),
+                 "msys": lambda: merr.SystemError(RuntimeError("system")), "other": lambda: RuntimeError("other")}[base]()
+            if kd.startswith("a:"):
+                mon.MonitorActionError(fn, e)          # registers itself with the default tracker
+            else:
+                tr.addException(e)
+        G.W.now = float(c["now"])
+        got = {}
+        for tf in (30, 120, 180):
+            try:
+                got[str(tf)] = tr.isSystemStable(tf)
+            except Exception as e:     # noqa
+                got[str(tf)] = "raised %r" % (e,)
+        out.append((got, len(tr.exceptions)))
+    return out
+
+
+def tracker(chk):
+    c = cfg("tracker", dict(ENV), "SPECIFICATION TrkSpec\nINVARIANT TrkEmit\n")
+    r = tlc.run_tlc(MODULE, c, workers=1, timeout=600, jvm=LIGHT)
+    must_hold(chk, r, "exception tracker")
+    cases = r["cases"]
+    if len(cases) < 2000:
+        raise MachineryError("TLC printed only %d tracker cases" % len(cases))
+    chunks = [cases[i:i + 400] for i in range(0, len(cases), 400)]
+    res = [x for part in pool_map(_tracker_chunk, chunks) for x in part]
+    for c, (got, n) in zip(cases, res):
+        chk.evaluated(("tracker", c["trk"], c["now"]))
+        if got != c["stable"]:
+            kinds = "+".join(sorted(set(k for _t, k in c["trk"])))
+            chk.violation("tracker:isSystemStable:%s" % kinds, "exceptions %s, asked at %s: isSystemStable(30/120/180) = %s, specification %s" % (
+                c["trk"], c["now"], json.dumps(got, sort_keys=True), json.dumps(c["stable"], sort_keys=True)), {"kind": "tracker", "case": c})
+    chk.cov["tracker_cases"] = len(cases)
+    return len(cases)
+
+
+ENV = dict(ExitCodes="{}", ExtSignals="{}", Disps="{}", Observers="{}", MaxKill=0)
+ALLVALS = '{"True", "False", "One", "Zero", "None", "raise"}'
+
+
+def cover_plan(tier, scratch):
+    """(name, specification, constants, driver kind, driver parameters, least number of transitions)"""
+    th = tier == "thorough"
+    plan = [
+        ("task-2-waiters", "TaskSpec", dict(Observers="{1, 2}", MaxKill=2 if th else 1), "task", (2, "none", "task"), 15000),
+        ("task-2-kills", "TaskSpec", dict(Observers="{1}", MaxKill=2, ExitCodes="{3}"), "task", (1, "none", "task"), 5000),
+        ("task-death-monitor", "TaskSpec", dict(Observers="{1}" if th else "{}", MonKind='"death"', MaxKill=1), "task", (1 if th else 0, "death", "task"), 20000),
+        ("task-event-monitor", "TaskSpec", dict(Observers="{}", MonKind='"event"', MaxKill=1, Disps='{"die"}'), "task", (0, "event", "task"), 8000),
+        ("death-monitor-any-test", "TaskSpec", dict(ENV, MonKind='"death"', TestKind='"env"', TestVals=ALLVALS), "task", (0, "death", "env"), 200),
+        ("event-monitor-any-test", "TaskSpec", dict(ENV, MonKind='"event"', TestKind='"env"', TestVals=ALLVALS), "task", (0, "event", "env"), 200),
+    ]
+    for la in ("TRUE", "FALSE"):
+        for ik in ("number", "callable"):
+            plan.append(("periodic-last%s-%s" % (la[0], ik), "PerSpec",
+                         dict(ENV, TestKind='"env"', TestVals="{}", ActOuts='{"ok", "exc", "fs"}', MaxAct=7, LastAction=la, IntervalKind='"%s"' % ik),
+                         "per", (la == "TRUE", ik), 1500))
+    plan.append(("simulator", "SimSpec", dict(ENV, MaxKill=2 if th else 1, SimCodes="{0, 3}" if th else "{3}", SimUnmet="{FALSE, TRUE}", MaxSimPoll=2 if th else 1),
+                 "sim", (scratch,), 10000))
+    return plan
+
+
+FOUND = {}
+
+
+def report_findings(chk):
+    for key, what in FOUND.items():
+        if key in chk.known_keys:
+            chk.violation(key, what)          # counted and printed by finish() as a known finding
+        else:
+            print("KNOWN-FINDING: property=%s %s %s" % (PID, "G04:" + key, what))
+    chk.cov["findings"] = {"G04:" + k: v for k, v in FOUND.items()}
+
+
+ACTIONS = ["Create", "CreateFails", "ProcExit", "ExtSignal", "KillCall", "Query", "WStart", "WWake", "WRc", "WFin", "WEpoch", "WSet", "WaitCall",
+           "OCheck", "OWait", "OWake", "MonStart", "Cancel", "Fire", "TChk", "TTest", "TDecide", "TAct",
+           "PStartCall", "PCancel", "PFirst", "PEnter", "PCond", "PWaitEnter", "PWaitWoken", "PCond2", "PAct", "PInterval", "PElapse",
+           "SCreate", "SRunStart", "SRunWake", "SRunExec", "SRunResume", "SRunFile", "SRunEnd", "SPollStep", "SPollNext",
+           "SKillCall", "SKillStep", "SWaitCall", "SWaitStep", "SQuery"]
+FINE_ACTIONS = ["OPeek", "OGo", "SRunFine", "SPollStmt"]
+
+
+def fine_actions(chk):
+    """The statement-level actions only exist with Fine = TRUE (trace validation): count their transitions in small models."""
+    seen = {}
+    for name, spec, consts in (("fine_task", "TaskSpec", dict(Fine="TRUE", Emit="TRUE", MaxKill=0, ExitCodes="{3}", ExtSignals="{}", Disps='{"die"}')),
+                               ("fine_sim", "SimSpec", dict(ENV, Fine="TRUE", Emit="TRUE", SimCodes="{3}", MaxSimPoll=1, MaxKill=1))):
+        r = tlc.run_tlc(MODULE, cfg(name, consts, "SPECIFICATION %s\n" % spec), workers=1, timeout=600, jvm=LIGHT)
+        must_hold(chk, r, name)
+        for e in r["cases"]:
+            seen[e[1][3]] = seen.get(e[1][3], 0) + 1
+        r["out"] = ""
+    return {a: seen.get(a, 0) for a in FINE_ACTIONS}
 
 
 def run(tier):
@@ -377,8 +756,39 @@ def run(tier):
     os.makedirs(GEN, exist_ok=True)
     try:
         t0 = time.time()
+        model_check(chk, tier)
+        t1 = time.time()
+        plan = cover_plan(tier, chk.scratch)
+        for (name, spec, consts, kind, params, least), edges in zip(plan, emit_transitions(chk, plan)):
+            transition_cover(chk, name, edges, kind, params)
+        acts = chk.cov["action_coverage"]
+        acts.update(fine_actions(chk))
+        missing = [a for a in ACTIONS + FINE_ACTIONS + (["SRunState"] if SIM_STATE_LAST == "TRUE" else ["SRunCode"]) if not acts.get(a)]
+        if missing:
+            raise MachineryError("actions of TaskLifecycle.tla without a transition (vacuous model): %s" % missing)
+        t2 = time.time()
         code_to_spec(chk, tier, chk.scratch)
-        print(time.time() - t0, json.dumps(chk.cov["random_runs"])[:3000])
+        t3 = time.time()
+        want = table(chk)
+        real_processes(chk, want)
+        tracker(chk)
+        t4 = time.time()
+        chk.cov["phase_wall_s"] = dict(model=round(t1 - t0, 1), cover=round(t2 - t1, 1), traces=round(t3 - t2, 1), functions=round(t4 - t3, 1))
+        chk.cov["rule"] = ("spec -> code: EVERY transition <<state, action, state'>> of the bounded models (LocalTask with two waiters; with an attached "
+                           "death / event monitor; monitors with any test outcome; CreateMonitor x lastAction x interval kind; SimulatorTask) lies on a "
+                           "replayed path and the real state is compared after every step; code -> spec: seeded random lock-stepped runs (thread steps "
+                           "down to single lines) validated by TLC; functions: returncode table -64..255 x 2 implementations, tracker; distinct = "
+                           "distinct paths / seeds / table rows")
+        chk.cov["exhaustive"] = True
+        report_findings(chk)
+        chk.assumptions += [
+            "the kernel below subprocess.Popen is a model (run -> zombie -> reaped, SIGTERM kills or is ignored, signals to zombies are dropped, a "
+            "freed pid answers ESRCH); eleven REAL processes check that it agrees with Linux on codes, signals and kill()/terminate()",
+            "CPython's subprocess.Popen (poll / wait / send_signal / _waitpid_lock) is executed, not modelled: it is trusted as far as it is not LocalTask's",
+            "what reaches the process is the signal sent to the SHELL of shell=True; whether the workload below the shell dies is outside the model",
+            "threads interleave at source lines of the module under test and at every blocking call / call-back; byte-code level interleavings are not explored",
+            "one task, one monitor per behaviour; DockerTask / LSF / Kubernetes tasks need their back-ends and are not covered",
+            "CreateMonitor with cancelEvent=None (never used in the code base) is not covered; virtual clock: only the order of time-outs matters"]
         return chk.finish()
     finally:
         shutil.rmtree(GEN, ignore_errors=True)
@@ -387,12 +797,25 @@ def run(tier):
 def replay(path):
     d = json.load(open(path))
     chk = Check(PID, "quick")
+    os.makedirs(GEN, exist_ok=True)
     rp = d["replay"]
-    if rp["kind"] == "replay":
-        r = replay_path(rp["driver"], tuple(rp["params"]), rp["init"], [(lab, st) for lab, st in rp["path"]])
-        chk.evaluated(("replay",))
-        if r and r[0] == "MACHINERY":
-            raise MachineryError(r[1])
-        if r:
-            chk.violation(r[0], r[1], rp)
-    return chk.finish()
+    try:
+        if rp["kind"] == "replay":
+            params = tuple(rp["params"])
+            if rp["driver"] == "sim":
+                params = (chk.scratch,)
+            r = replay_path(rp["driver"], params, rp["init"], [(lab, st) for lab, st in rp["path"]])
+            chk.evaluated(("replay",))
+            if r and r[0] == "MACHINERY":
+                raise MachineryError(r[1])
+            if r:
+                chk.violation(r[0], r[1], rp)
+        elif rp["kind"] in ("trace", "trace-group"):
+            code_to_spec(chk, "quick", chk.scratch, only_group=rp["group"], only_seed=rp.get("seed"))
+        elif rp["kind"] in ("table", "real"):
+            real_processes(chk, table(chk))
+        else:
+            tracker(chk)
+        return chk.finish()
+    finally:
+        shutil.rmtree(GEN, ignore_errors=True)
